@@ -172,8 +172,11 @@ pub fn known_for_build(v: &Viol) -> Option<&'static str> {
     let d = v.case.get("dialect")?.as_str()?;
     let opts = v.case.get("options").and_then(|o| o.as_str()).unwrap_or("");
     let code = sut::consensus_deserialize(&hex::decode(v.case.get("compiled_hex")?.as_str()?).ok()?).ok()?;
-    if (d == "cl22" || opts.contains("fe=1")) && code_has_gensym_atom(&code) {
-        return Some("cl22-frontend-optimizer-leaks-bound-names");
+    // the evaluator's com handling is reached through the cl22 frontend optimiser and, in every
+    // dialect, through defconst evaluation
+    let src = v.case.get("source").and_then(|s| s.as_str()).unwrap_or("");
+    if (d == "cl22" || opts.contains("fe=1") || src.contains("(defconst ")) && code_has_gensym_atom(&code) {
+        return Some("evaluator-com-leaks-let-bound-names");
     }
     if (d == "cl23" || d == "cl23.1" || d == "cl24") && opts.contains("opt=1") && code_has_const_path_into_atom(&code) {
         return Some("cl23-constant-folds-path-into-atom");
